@@ -160,12 +160,42 @@ def gen_registry(rng):
             lines.append(' ' * indent + rs + props)
             if depth < 3 and rng.random() < (0.55 if depth == 0 else 0.4):
                 emit(depth + 1, indent + step_indent + (rng.choice((0, 0, 1)) if depth else 0))
+    def emit_wide(indent):
+        # one level with many equal-length entries: repeated values with different properties, ranges that touch or
+        # overlap in one value, children under some of them (what an index over a level has to get right)
+        L = rng.choice((2, 2, 3))
+        digits = '0123456789'
+        for _ in range(rng.randrange(64, 150)):
+            lo = ''.join(rng.choice(digits) for _ in range(L))
+            if rng.random() < 0.4:
+                hi = str(min(10 ** L - 1, int(lo) + rng.choice((0, 1, 1, 2, 5, 9)))).zfill(L)
+                rs = lo + '-' + hi if hi != lo else lo
+            else:
+                rs = lo
+            props = ''.join(' %s="%s"' % (rng.choice(keys), 'w%d' % rng.randrange(9)) for _p in range(rng.choice((0, 1, 1, 2))))
+            lines.append(' ' * indent + rs + props)
+            if rng.random() < 0.15:
+                for _c in range(rng.randrange(1, 4)):
+                    lines.append(' ' * (indent + step_indent) + rnd_range(rng.choice((1, 2))) + ' c="%d"' % rng.randrange(5))
     if rng.random() < 0.3:
         lines.append('# a comment')
-    emit(0, 0)
+    wide = rng.random() < 0.12
+    if wide:
+        alphabet = '0123456789'
+        emit_wide(0)
+    else:
+        emit(0, 0)
     if rng.random() < 0.3:
         lines.insert(rng.randrange(len(lines)), '')
-    return '\n'.join(lines) + '\n', alphabet
+    # layout variants the line grammar allows: a tab or several blanks before the properties, trailing blanks,
+    # DOS line ends
+    r = rng.random()
+    if r < 0.1:
+        lines = [ln.replace(' ', '\t', 1) if not ln.startswith((' ', '#')) and ' ' in ln else ln for ln in lines]
+    elif r < 0.2:
+        lines = [ln + rng.choice(('', ' ', '  ')) for ln in lines]
+    eol = '\r\n' if rng.random() < 0.12 else '\n'
+    return eol.join(lines) + eol, alphabet
 
 
 def work(shard, tier):
